@@ -1,5 +1,5 @@
 """C20 - regeneration never touches files the generator does not own."""
-import json, os, time
+import json, os, sys, time
 import lib
 
 PROP = "C20"
@@ -72,6 +72,37 @@ def run(tier, seed, replay):
     st = dict(generator_runs=0)
     c12.regen_layouts(scr, verdict, lib.go_module(scr, "gen", "v2"), PROP, st)
     totals["regenerations"] = st["generator_runs"]
+    # a regeneration that FAILS half way (a plain user file sits where a package directory would have to be created) must
+    # leave every file the generator does not own exactly as it was -- both generators
+    import hashlib, subprocess
+    sys.path.insert(0, os.path.join(lib.VERIF, "schemas"))
+    import grammar
+    for gen in ("v2", "root"):
+        binp = lib.go_module(scr, "gen" if gen == "v2" else "genroot", gen)
+        out = scr.sub("failing-regen-" + gen)
+        user = {"README.md": "# mine\n", "gr": "a plain file named like the package directory\n", "keep/mine.go": "package keep\n", "keep/deep/notes.txt": "n\n"}
+        for p_, c in user.items():
+            os.makedirs(os.path.dirname(os.path.join(out, p_)) or out, exist_ok=True)
+            with open(os.path.join(out, p_), "w") as f:
+                f.write(c)
+        types = [t for t in grammar.BASE_TYPES if list(t.values())[0]["name"] != "CT"]
+        mf = os.path.join(scr.path, "failing-%s.json" % gen)
+        if gen == "v2":
+            json.dump({"packageRoot": "verifharness/gen", "inputDataTypes": types, "dependencyDataTypes": [], "resources": []}, open(mf, "w"))
+            args = [binp, mf, out]
+        else:
+            json.dump({"dataTypes": grammar.flatten_includes(types), "Resources": []}, open(mf, "w"))
+            args = [binp, mf, out, "verifharness/gen"]
+        pr = subprocess.run(args, stdout=subprocess.PIPE, stderr=subprocess.STDOUT, text=True, errors="replace", timeout=600)
+        totals["failing_regenerations"] = totals.get("failing_regenerations", 0) + 1
+        if pr.returncode == 0:
+            continue      # (the generator found a way around the obstacle: nothing to check)
+        for p_, c in user.items():
+            fp = os.path.join(out, p_)
+            if not os.path.isfile(fp) or open(fp).read() != c:
+                verdict.add("C20/failed-regeneration/user-file-touched/%s/%s" % (gen, p_),
+                            "a regeneration that failed (%s) removed or changed %s, which the generator does not own" % (pr.stdout.strip().splitlines()[-1][:200] if pr.stdout.strip() else "no message", p_),
+                            dict(gen=gen, file=p_))
     cov.update(totals)
     cov["traces_validated_against_impl"] = totals["traces"]
     cov["evaluations"] = totals["replayed"]
